@@ -230,6 +230,7 @@ pub fn inject_error(rng: &mut Rng, p: &mut Project) {
             prologue: as_prologue.then(|| text.clone()),
             epilogue: (!as_prologue).then(|| text.clone()),
             braced: rng.chance(1, 2),
+            more: vec![],
         });
         p.modules[m].order.push(Decl::Backend(k));
         return;
